@@ -336,8 +336,12 @@ def neighbour_complete(cfg, pas, nn):
     return []
 
 
+CAPPED = set()
+
+
 def configs(thorough, seed):
     out = []
+    CAPPED.clear()
     lat1 = [-0.5, 0.0, 0.25, 0.5, 1.0]     # rel. to faces: outside, on the
     # face, inside the layer, at the threshold (n_layers*cell=0.5), beyond
     for dim in (1, 2, 3):
@@ -346,6 +350,8 @@ def configs(thorough, seed):
             pts1 = sorted(set(lat1 + [L - c for c in lat1 if c >= 0] +
                               [L + 0.25]))
             kmax = {1: 3, 2: 2, 3: 2}[dim]
+            if thorough:
+                kmax = {1: 4, 2: 3, 3: 2}[dim]
             if dim == 3 and not thorough:
                 pts1 = [-0.5, 0.0, 0.5, L - 0.25, L]
             if dim == 2 and not thorough:
@@ -360,9 +366,16 @@ def configs(thorough, seed):
                     for k in range(1, kmax + 1):
                         combos = list(itertools.combinations(range(len(lat)),
                                                              k))
-                        if k >= 2 and len(combos) > 400:
-                            stride = len(combos) // 400 + 1
+                        cap = 400
+                        if thorough:
+                            # complete for 1-D and for pairs in 2-D; one
+                            # residue class (chosen by the seed) beyond
+                            cap = 10 ** 9 if (dim == 1 or (dim == 2 and k == 2)) \
+                                else 2500
+                        if k >= 2 and len(combos) > cap:
+                            stride = len(combos) // cap + 1
                             combos = combos[seed % stride::stride]
+                            CAPPED.add((dim, k, stride))
                         for ms in combos:
                             pts = [lat[i] for i in ms]
                             # mirror domains hold particles inside the box
@@ -460,6 +473,9 @@ def run(ctx):
     cov = dict(states=nst, transitions=n,
                traces_validated_against_impl=nst, configurations=len(cfgs),
                exhaustive=True,
+               subsampled=['dim=%d k=%d: one residue class of %d of the '
+                           'placements (chosen by the seed)' % c
+                           for c in sorted(CAPPED)],
                samples=[cfgs[(ctx.seed * 13 + 77) % len(cfgs)]],
                rule='boxes [0,L]^dim, L in {2, 1.25} (the narrow box puts a '
                     'particle into both ghost layers), every assignment of '
